@@ -714,7 +714,8 @@ Contract(
         ("handler_only_state", lambda c: config_unchanged(c, c.old(_srv(c), "json_config")), ("C13", "C12")),
     ],
     asserts=[("dispatcher_gets_the_decoding_of_the_whole_body", _MD, _whole_body_assert, ("C17",))],
-    loops={0: LoopSpec(_read_inv, "read-loop")},
+    # C12 (a request cannot keep the handler busy for ever): every further round of the read loop has consumed at least one byte
+    loops={0: LoopSpec(_read_inv, "read-loop", variant=lambda L: Val.i(L.v("size_remaining")))},
     modifies=[Ghost(g) for g in ("out", "in_pos", "call_log", "env_calls", "env_outcomes", "env_kind", "env_val", "bind_err", "pool_accepted",
                                  "uuid_ctr", "xlate_log", "x_kind", "x_val", "last_dumped", "imports", "constructs",
                                  "checked_name", "bean_attrs")] +
